@@ -1,8 +1,8 @@
 /-
 C15 model, part 4: the whole exchange of one scenario of the end-to-end rig (props/C15.py), assembled from the pieces.
 
-* request side (`clientInterpretRequestHeaders`, src/client_side_request.cc): `request->range = getRange()`,
-  `readBuffer.offset = range->lowestOffset(0)`
+* request side (`clientInterpretRequestHeaders`, src/client_side_request.cc): `request->range = getRange()`
+  (`readBuffer.offset = range->lowestOffset(0)` no longer influences the reply body since fix f9db419)
 * server side (`HttpStateData::httpBuildRequestHeader`/`decideIfWeDoRanges`, src/http.cc): Range/If-Range are passed to the
   origin only when Squid does not do the ranges itself; a multi-range request that is passed on is turned into a plain one
 * reply side: `buildRangeHeader` decision, then the 206 (Content-Range or multipart Content-Type, replaced Content-Length,
@@ -49,7 +49,6 @@ structure Reply where
   body : Bytes                  -- de-chunked message body
   parts : List CSpec            -- parts of a 206 (one for a single range)
   originSaw : Option (Option Bytes)   -- none: no request reached the origin; some r: one request, with that Range header
-  skewFrom : Option Nat         -- some L: on a swapped-in object the body may instead start at L (see `runIgnored`)
   deriving Repr
 
 def rangeOffsetLimit : Mode → Int
@@ -61,41 +60,40 @@ def isHit : Mode → Bool
 
 /-- `clientBuildReplyHeader`: an object of unknown length is sent chunked to an HTTP/1.1 client, unless the request is (still) a
 multi-range request (`maySendChunkedReply`): then the connection is closed after the body -/
-def plainReply (sc : Scenario) (body : Bytes) (saw : Option (Option Bytes)) (skew : Option Nat) (multiReq : Bool := false) : Reply :=
+def plainReply (sc : Scenario) (body : Bytes) (saw : Option (Option Bytes)) (multiReq : Bool := false) : Reply :=
   { status := 200, contRange := none
     contentLength := if sc.lenKnown then some body.length else none
     chunked := !sc.lenKnown && !sc.isHead && !multiReq
     closeDelimited := !sc.lenKnown && !sc.isHead && multiReq
     ctype := sc.ctype, multi := false
     body := if sc.isHead then [] else body
-    parts := [], originSaw := saw, skewFrom := skew }
+    parts := [], originSaw := saw }
 
 /-- a reply built by Squid from a stored 200 (modes miss, mem, disk, and fwd when the origin answered 200) -/
 def serveStored (sc : Scenario) (key : Bytes) (m : Nat) (sched : Nat → Nat) (saw : Option (Option Bytes)) : Except String Reply :=
   let body := objBody sc.n sc.seed
   match sc.range.bind parseRange with
-  | none => .ok (plainReply sc body saw none)             -- no request->range
+  | none => .ok (plainReply sc body saw)             -- no request->range
   | some raw =>
     if sc.mode == .fwd && raw.length > 1 then             -- http.cc: "want to request the whole object"
-      .ok (plainReply sc body saw none)
+      .ok (plainReply sc body saw)
     else
-      let L := (lowestOffset raw 0).toNat                 -- node->readBuffer.offset
       let clen : Int := if sc.lenKnown then body.length else -1
       let ctx : Ctx := { isHit := isHit sc.mode, ifRange := sc.ifRange, repTag := some objTag, roffLimit := rangeOffsetLimit sc.mode,
                          status := 200, hasContentRange := false, contentLength := clen, baseLength := clen }
       let m' := if sc.isHead then 0 else m
       match buildRangeHeader ctx raw with
       | .error _ =>
-        match runIgnored body L m' sched with
+        match runIgnored body m' sched with                 -- the untouched stored reply, body as the stream delivers it
         | .error e => .error e
-        | .ok _ => .ok (plainReply sc body saw (if sc.mode == .disk && L > 0 && !sc.isHead then some L else none) (decide (raw.length > 1)))
+        | .ok wire => .ok { plainReply sc body saw (decide (raw.length > 1)) with body := if sc.isHead then [] else wire }
       | .ok cs =>
         let specs := cs.map RSpec.toC
         let bnd := boundary key
         let hdrOf := partHdr bnd sc.ctype body.length
         let term := termBound bnd
         let multi := decide (specs.length > 1)
-        match (if sc.isHead then Except.ok [] else runHonoured hdrOf term body specs L m' sched) with
+        match (if sc.isHead then Except.ok [] else runHonoured hdrOf term body specs m' sched) with
         | .error e => .error e
         | .ok wire =>
           .ok { status := 206
@@ -104,7 +102,7 @@ def serveStored (sc : Scenario) (key : Bytes) (m : Nat) (sched : Nat → Nat) (s
                 chunked := false, closeDelimited := false
                 ctype := if multi then some (multipartCType bnd) else sc.ctype
                 multi := multi
-                body := wire, parts := specs, originSaw := saw, skewFrom := none }
+                body := wire, parts := specs, originSaw := saw }
 
 /-- the rig's origin for a request that carries a Range header (fwd mode) -/
 def originAnswer (sc : Scenario) : Except String Reply :=
@@ -116,10 +114,10 @@ def originAnswer (sc : Scenario) : Except String Reply :=
     match rfcPart sc.n s with
     | some c =>
       .ok { status := 206, contRange := some (contRange c sc.n), contentLength := some c.len, chunked := false, closeDelimited := false, ctype := sc.ctype, multi := false
-            body := slice body c.off c.len, parts := [c], originSaw := saw, skewFrom := none }
+            body := slice body c.off c.len, parts := [c], originSaw := saw }
     | none =>
       .ok { status := 416, contRange := some ([98, 121, 116, 101, 115, 32, 42, 47] ++ dec sc.n), contentLength := some 14, chunked := false, closeDelimited := false, ctype := none,
-            multi := false, body := [117, 110, 115, 97, 116, 105, 115, 102, 105, 97, 98, 108, 101, 10], parts := [], originSaw := saw, skewFrom := none }
+            multi := false, body := [117, 110, 115, 97, 116, 105, 115, 102, 105, 97, 98, 108, 101, 10], parts := [], originSaw := saw }
   | _ => serveStored sc [] 0 (fun _ => 0) saw
 
 /-- one scenario -/
